@@ -56,6 +56,7 @@ func runC26(c *Ctx) {
 		// the stop test: If in the entry loop comparing buf.Len() with a bound
 		var stopIf *ssa.If
 		var bound, boundForFloor ssa.Value
+		budgets := map[*ssa.If]*budgetInfo{}
 		for _, b := range h.Blocks {
 			ifi := blockIf(b)
 			if ifi == nil || !inCycle(b) {
@@ -75,6 +76,10 @@ func runC26(c *Ctx) {
 				if est := evalLin(p, bo.X, nil, 0); est.OK && (est.PadName+est.RawName > 0 || est.OtherLen) {
 					bound = nil
 				}
+			} else if bud := budgetForm(p, bo); bud != nil {
+				// `entrySize > budget` with budget = limit - K, decreased by the entry size after each entry
+				stopIf, bound, boundForFloor = ifi, nil, bud.init
+				budgets[ifi] = bud
 			}
 		}
 		key := "proc=" + name
@@ -82,7 +87,7 @@ func runC26(c *Ctx) {
 			c.bad(P, "fit", key, p.pos(h.Pos()), "no size test in the entry loop: the reply is not limited by "+spec.limit)
 		} else if bound == nil {
 			c.ok(P, "fit", key, p.instrPos(stopIf), "the stop test accounts for the entry about to be added")
-			runC26EntrySize(c, h, name, stopIf)
+			runC26EntrySizeB(c, h, name, stopIf, budgets[stopIf])
 			runC26TooSmallEdge(c, h, name, stopIf)
 			// a floor that silently raises a small client limit defeats the limit for those requests
 			if fl := floorConst(boundForFloor); fl >= 0 {
